@@ -320,12 +320,17 @@ func runHistory(idx int, work string, nser, nwal int, ops []Op, r *gen.Rand, rec
 			wops = append(wops, i)
 		}
 	}
-	hdrOp := -1
-	if len(wops) > 0 {
-		hdrOp = wops[r.Intn(len(wops))]
+	hdrOp := map[int]bool{} // up to 4 write ops per history (all in thorough)
+	for i := 0; i < 4 && len(wops) > 0; i++ {
+		hdrOp[wops[r.Intn(len(wops))]] = true
+	}
+	if !quick {
+		for _, w := range wops {
+			hdrOp[w] = true
+		}
 	}
 	rec.Start(dir, func(ev *crashfs.Event) {
-		if ev.Kind == "write" && isWal(ev.Path) && inWrite && cur == hdrOp && len(ev.Data) > 5 {
+		if ev.Kind == "write" && isWal(ev.Path) && inWrite && hdrOp[cur] && len(ev.Data) > 5 {
 			take(fmt.Sprintf("torn wal append %d/%d", 5, len(ev.Data)), cur, 5, ev, true)
 		}
 		if ev.Kind == "write" && isWal(ev.Path) && inWrite && ch(1, 4) {
